@@ -219,9 +219,9 @@ def run(ctx):
     seeds = [0, 1, 7, 42, 99, 123, 1000, 2024, 31337, 65535, 5, 11, 13, 17, 19, 23][:nseeds]
     rng = ctx.rng
     tg = TextGen(rng)
-    texts = [tg.template() for _ in range(ctx.size(700, 8000))]
+    texts = [tg.template() for _ in range(ctx.size(700, 3000))]
     trees = []
-    for i in range(ctx.size(500, 6000)):
+    for i in range(ctx.size(500, 2500)):
         g = G.SGen(rng, size=rng.randint(4, ctx.size(12, 25)), pool=["a", "b", "c", "n", "zeta", "q9"])
         trees.append(G.p_src(g.program()))
     # every template in sync mode; every 2nd also in one of the other code-generation modes
